@@ -543,8 +543,8 @@ def n03_classLog (env : Env) : Nat → Class → List LogEntry
       (n03_attrLog c.attributes
         ++ (c.classes.filter (·.isPublic)).flatMap (n03_classLog env fuel)
         ++ n03_methLog false [] c.methods
-        ++ (if !c.superclasses.isEmpty && !c.isAbstract then
-              (c.superclasses.filter n03_privSuper).flatMap
+        ++ (if !c.renderedSupers.isEmpty && !c.isAbstract then
+              (c.renderedSupers.filter n03_privSuper).flatMap
                 (fun sc => n03_internalLog env fuel sc (n03_ownNames c))
             else [])
         ++ [("endclass", c.id)])
@@ -567,8 +567,8 @@ theorem n03_classLog_succ (env : Env) (fuel : Nat) (c : Class) :
       (n03_attrLog c.attributes
         ++ (c.classes.filter (·.isPublic)).flatMap (n03_classLog env fuel)
         ++ n03_methLog false [] c.methods
-        ++ (if !c.superclasses.isEmpty && !c.isAbstract then
-              (c.superclasses.filter n03_privSuper).flatMap
+        ++ (if !c.renderedSupers.isEmpty && !c.isAbstract then
+              (c.renderedSupers.filter n03_privSuper).flatMap
                 (fun sc => n03_internalLog env fuel sc (n03_ownNames c))
             else [])
         ++ [("endclass", c.id)]) := by
@@ -616,8 +616,8 @@ theorem n03_classBody_tr (env : Env) (fuel : Nat)
   rintro ⟨methodText, methodNames⟩ s6 ⟨hn6, h6⟩
   dsimp only at hn6 ⊢
   rw [wp_bind]
-  refine wp_conseq (Q := fun _ s7 => n03_Tr s6 s7 (if !c.superclasses.isEmpty && !c.isAbstract then
-              (c.superclasses.filter n03_privSuper).flatMap
+  refine wp_conseq (Q := fun _ s7 => n03_Tr s6 s7 (if !c.renderedSupers.isEmpty && !c.isAbstract then
+              (c.renderedSupers.filter n03_privSuper).flatMap
                 (fun sc => n03_internalLog env fuel sc (n03_ownNames c))
             else []) []) ?_ ?_
   · rw [wp_ite]
@@ -1352,8 +1352,8 @@ theorem n03_classLog_bal (env : Env) : (fuel : Nat) →
       have hm : n03_Bal (n03_attrLog c.attributes
         ++ (c.classes.filter (·.isPublic)).flatMap (n03_classLog env fuel)
         ++ n03_methLog false [] c.methods
-        ++ (if !c.superclasses.isEmpty && !c.isAbstract then
-              (c.superclasses.filter n03_privSuper).flatMap
+        ++ (if !c.renderedSupers.isEmpty && !c.isAbstract then
+              (c.renderedSupers.filter n03_privSuper).flatMap
                 (fun sc => n03_internalLog env fuel sc (n03_ownNames c))
             else [])) := by
         refine (((n03_attrLog_bal _).append (n03_Bal.flatMap _ _ fun a _ => ih1 a)).append (n03_methLog_bal _ _ _)).append ?_
@@ -1372,8 +1372,8 @@ def n03_members (env : Env) (fuel : Nat) (c : Class) : List LogEntry :=
   n03_attrLog c.attributes
     ++ (c.classes.filter (·.isPublic)).flatMap (n03_classLog env fuel)
     ++ n03_methLog false [] c.methods
-    ++ (if !c.superclasses.isEmpty && !c.isAbstract then
-          (c.superclasses.filter n03_privSuper).flatMap (fun sc => n03_internalLog env fuel sc (n03_ownNames c))
+    ++ (if !c.renderedSupers.isEmpty && !c.isAbstract then
+          (c.renderedSupers.filter n03_privSuper).flatMap (fun sc => n03_internalLog env fuel sc (n03_ownNames c))
         else [])
 
 theorem n03_classLog_members (env : Env) (fuel : Nat) (c : Class) :
